@@ -3,6 +3,7 @@ package core
 import (
 	stdErrors "errors"
 	"fmt"
+	"regexp"
 
 	schema "github.com/jsightapi/jsight-schema-core"
 	"github.com/jsightapi/jsight-schema-core/bytes"
@@ -121,6 +122,8 @@ func (core *JApiCore) buildUserTypes() *jerr.JApiError {
 	return adoptError(err)
 }
 
+var userTypeNameRegexp = regexp.MustCompile(`@[A-Za-z0-9_-]+`)
+
 // maxUserTypeReferenceSteps limits the work of checkUserTypeReferences.
 const maxUserTypeReferenceSteps = 1 << 22
 
@@ -131,12 +134,17 @@ const maxUserTypeReferenceSteps = 1 << 22
 // @t3 and @t4, and so on: 50 such types keep the library busy for hours), so the
 // walk is counted and given up with an error when it gets too long.
 func (core *JApiCore) checkUserTypeReferences() *jerr.JApiError {
+	// Every place where the text of a type names another type counts: the
+	// library follows each of them.
 	refs := make(map[string][]string, core.userTypes.Len())
 	_ = core.userTypes.Each(func(k string, ut schema.Schema) error {
-		if js, ok := ut.(*jschema.JSchema); ok {
-			// A fault in the text of the type is reported when it is compiled.
-			if names, err := js.UsedUserTypes(); err == nil {
-				refs[k] = names
+		d := core.rawUserTypes.GetValue(k)
+		if _, ok := ut.(*jschema.JSchema); !ok || d == nil || !d.BodyCoords.IsSet() {
+			return nil
+		}
+		for _, name := range userTypeNameRegexp.FindAllString(d.BodyCoords.Read().String(), -1) {
+			if name != k && core.userTypes.Has(name) {
+				refs[k] = append(refs[k], name)
 			}
 		}
 		return nil
